@@ -236,9 +236,7 @@ fn scenario(c: &Case) -> Scenario {
                 },
                 ReqPlan::simple(),
             ],
-            recv: RecvStyle::Recv,
-            deferred: false,
-        },
+            recv: RecvStyle::Recv, deferred: false, thread_per_request: false },
     );
     if c.half_close {
         sc.script.push((0, Step::CloseWrite));
